@@ -492,6 +492,9 @@ impl Monitor for C17 {
             obs.sample(J::obj(vec![("scenario", J::s(scenario)), ("failing_token", J::s(tok)), ("source", J::s(truncate(log.last().unwrap_or(&String::new()), 300)))]));
         }
     }
+    fn boot_mut(&mut self) -> Option<&mut Xstate> {
+        Some(&mut self.boot)
+    }
     fn describe(&mut self, idx: u64) -> String {
         format!("error-location case #{}", idx)
     }
